@@ -32,6 +32,9 @@ type opnMidT struct {
 	TokenID   uint32 `json:"token_id"`
 	Nonce     int    `json:"nonce_len"`
 	Repeat    int    `json:"repeat"` // how many such responses in a row
+	// AsMSG: the OpenSecureChannelResponse travels as the body of an ordinary
+	// symmetric MSG chunk (token of the channel) instead of an OPN chunk
+	AsMSG bool `json:"as_msg_chunk,omitempty"`
 }
 
 func runOPNMid(c opnMidT) (msg string, infra error) {
@@ -71,7 +74,11 @@ func runOPNMid(c opnMidT) (msg string, infra error) {
 	for i := 0; i < c.Repeat; i++ {
 		sent++
 		body := opnResponseBody(m.Request().Header().RequestHandle, c.ChannelID, c.TokenID, make([]byte, c.Nonce), ua.StatusCode(c.Status))
-		if err := p.Tap.Inject(netx.S2C, refnone.OpenChunk(channelID, sent, reqID, body)); err != nil {
+		frame := refnone.OpenChunk(channelID, sent, reqID, body)
+		if c.AsMSG {
+			frame = refnone.SymChunk("MSG", 'F', channelID, tokenID, sent, reqID, body)
+		}
+		if err := p.Tap.Inject(netx.S2C, frame); err != nil {
 			return "", fmt.Errorf("inject: %v", err)
 		}
 	}
@@ -126,6 +133,7 @@ func TestOPNResponseMidStream(t *testing.T) {
 			TokenID:   rapid.SampledFrom([]uint32{tokenID, tokenID + 1, 0}).Draw(t, "tk"),
 			Nonce:     rapid.SampledFrom([]int{0, 0, 1, 32}).Draw(t, "nonce"),
 			Repeat:    rapid.IntRange(1, 3).Draw(t, "repeat"),
+			AsMSG:     rapid.Bool().Draw(t, "asMSG"),
 		}
 		rec.Journal("TestOPNResponseMidStream", c)
 		msg, infra := runOPNMid(c)
@@ -137,7 +145,7 @@ func TestOPNResponseMidStream(t *testing.T) {
 			t.Logf("no verdict: %v", infra)
 			return
 		}
-		rec.Case(true, ev.Hash("opnmid", b), "opn-response-mid-stream", "opn-response-mid-stream:for="+c.ForWhom, fmt.Sprintf("opn-response-mid-stream:status=%#x", c.Status))
+		rec.Case(true, ev.Hash("opnmid", b), "opn-response-mid-stream", "opn-response-mid-stream:for="+c.ForWhom, fmt.Sprintf("opn-response-mid-stream:status=%#x", c.Status), fmt.Sprintf("opn-response-mid-stream:as-MSG-chunk=%v", c.AsMSG))
 		if rec.WantSample() {
 			rec.Sample(map[string]any{"kind": "opn-response-mid-stream", "case": c})
 		}
